@@ -691,7 +691,78 @@ func isZeroScalar(v PVal) bool {
 	return true
 }
 
+// lastElements: lists nested in a sub message, a list element or a map value that lose their last remaining element (the
+// field disappears with its tag, which every enclosing length must account for), for one- and two-byte tags
+func (c *c10) lastElements(base int) {
+	c.setSchema(PSchema{Root: "Root", Msgs: map[string][]PField{
+		"Root": {{Num: 1, Name: "one", Kind: "message", Msg: "Sub", Card: "one"}, {Num: 2, Name: "many", Kind: "message", Msg: "Sub", Card: "rep"},
+			{Num: 3, Name: "byk", Kind: "message", Msg: "Sub", Card: "map", KKind: "string"}, {Num: 4, Name: "tail", Kind: "string", Card: "one"},
+			{Num: 20, Name: "far", Kind: "message", Msg: "Sub", Card: "one"}},
+		"Sub": {{Num: 1, Name: "a", Kind: "int32", Card: "rep", Packed: true}, {Num: 16, Name: "b", Kind: "fixed32", Card: "rep", Packed: true},
+			{Num: 2, Name: "c", Kind: "sint64", Card: "rep", Packed: true}, {Num: 3, Name: "s", Kind: "string", Card: "rep"},
+			{Num: 2047, Name: "d", Kind: "double", Card: "rep", Packed: true}, {Num: 5, Name: "keep", Kind: "string", Card: "one"}}}})
+	fd := func(md protoreflect.MessageDescriptor, name string) protoreflect.FieldDescriptor {
+		return md.Fields().ByName(protoreflect.Name(name))
+	}
+	subMD := fd(c.env.rroot, "one").Message()
+	i := 0
+	for _, pos := range []string{"one", "many", "byk", "far"} {
+		for _, fn := range []string{"a", "b", "c", "s", "d"} {
+			for _, n := range []int{1, 2} {
+				for _, keep := range []bool{false, true} {
+					if base+i >= startAt {
+						sub := dynamicpb.NewMessage(subMD)
+						l := sub.Mutable(fd(subMD, fn)).List()
+						for k := 0; k < n; k++ {
+							switch fn {
+							case "a":
+								l.Append(protoreflect.ValueOfInt32(int32(300 + k)))
+							case "b":
+								l.Append(protoreflect.ValueOfUint32(uint32(7 + k)))
+							case "c":
+								l.Append(protoreflect.ValueOfInt64(int64(-5 - k)))
+							case "s":
+								l.Append(protoreflect.ValueOfString("x"))
+							case "d":
+								l.Append(protoreflect.ValueOfFloat64(1.5))
+							}
+						}
+						if keep {
+							sub.Set(fd(subMD, "keep"), protoreflect.ValueOfString("kept"))
+						}
+						root := dynamicpb.NewMessage(c.env.rroot)
+						var path []PItem
+						switch pos {
+						case "one", "far":
+							root.Set(fd(c.env.rroot, pos), protoreflect.ValueOfMessage(sub))
+							path = []PItem{{K: "id", N: int(fd(c.env.rroot, pos).Number()), B: B{}}}
+						case "many":
+							ml := root.Mutable(fd(c.env.rroot, "many")).List()
+							ml.Append(protoreflect.ValueOfMessage(dynamicpb.NewMessage(subMD)))
+							ml.Append(protoreflect.ValueOfMessage(sub))
+							path = []PItem{{K: "id", N: 2, B: B{}}, {K: "idx", N: 1, B: B{}}}
+						case "byk":
+							root.Mutable(fd(c.env.rroot, "byk")).Map().Set(protoreflect.ValueOfString("k").MapKey(), protoreflect.ValueOfMessage(sub))
+							path = []PItem{{K: "id", N: 3, B: B{}}, {K: "str", B: B("k")}}
+						}
+						root.Set(fd(c.env.rroot, "tail"), protoreflect.ValueOfString("after"))
+						path = append(path, PItem{K: "id", N: int(fd(subMD, fn).Number()), B: B{}})
+						pc := PEditCase{B: refMarshal(root)}
+						for k := n - 1; k >= 0; k-- {
+							pc.Ops = append(pc.Ops, PEditOp{Op: "Unset", Path: cat(path, PItem{K: "idx", N: k, B: B{}}), Sub: pNone()})
+						}
+						c.out.Begin(base+i, PEditCase{Schema: &c.env.schema, B: pc.B, Ops: pc.Ops})
+						c.run(pc)
+					}
+					i++
+				}
+			}
+		}
+	}
+}
+
 func (c *c10) genRandom(seed int64, base, n int) {
+	defer c.lastElements(base + n)
 	for i := 0; i < n; i++ {
 		if base+i < startAt {
 			continue
